@@ -398,16 +398,21 @@ def run_C07(ctx, proof_ok):
     n3, d3 = c07.incompatible_raise(r, E, budget(ctx.tier, 40, 800))
     n4, d4 = c07.shapes_vs_model(r, budget(ctx.tier, 400, 10000))
     n5, d5 = c07.ndim_mismatch_sweep(r, E)
-    ctx.violations.extend(d1 + d2 + d3 + d4 + d5)
-    return {"evaluations": n1 + n2 + n3 + n4 + n5, "distinct_nontrivial": n1 + n2 + n5,
+    n6, d6 = c07.grid3_vs_scalar(lib.rng(707), E, budget(ctx.tier, 30, 600))
+    n7, d7 = c07.batched_ops_vs_scalar(lib.rng(708), E, budget(ctx.tier, 40, 800))
+    ctx.violations.extend(d1 + d2 + d3 + d4 + d5 + d6 + d7)
+    return {"evaluations": n1 + n2 + n3 + n4 + n5 + n6 + n7, "distinct_nontrivial": n1 + n2 + n5 + n6 + n7,
             "rule": "metamorphic search on the real code: sequences of T/E/P/Phi/R/PD/S/SPOILER whose parameters are arrays over "
                     "sub-shapes (singleton axes, fewer axes) of a random grid, with identity-named first-order declarations and "
                     "automatic second order; vectorised simulate() (ADC, Z0, Jacobian, Hessian) vs the scalar simulation at EVERY "
                     "index of the broadcast grid, output shape = (nADC,)+getshape; `axes=` vs explicit singleton axes; incompatible "
-                    "shapes must raise; common.broadcast_shapes/broadcastable vs the Lean shape model",
+                    "shapes must raise; common.broadcast_shapes/broadcastable vs the Lean shape model; three parameters on three "
+                    "grid axes through `axes=` with first/second derivatives of E/P/T/Phi vs scalar runs; D with an array of "
+                    "diffusion times, S with one shift per batch entry (same or lower rank than the grid, equal or different "
+                    "patterns, integer and gridded) vs scalar runs of the F0/Z0 signals",
             "samples": [lib.jsonable(c07.describe(c07.gen_case(lib.rng(77))))],
             "distribution": {"vectorised_cases": n1, "axes_cases": n2, "incompatible_cases": n3, "shape_algebra_cases": n4,
-                             "ndim_mismatch_sweep_cases": n5}}
+                             "ndim_mismatch_sweep_cases": n5, "three_axis_grid_cases": n6, "batched_D_S_cases": n7}}
 
 
 def run_C17(ctx, proof_ok):
